@@ -15,6 +15,7 @@ import (
 	"io"
 	"net"
 	"os"
+	"strings"
 	"sync/atomic"
 	"testing"
 	"time"
@@ -35,6 +36,22 @@ type C11Case struct {
 	API       string          `json:"api,omitempty"` // "" = Send + receive | "upgrade" = Upgrade + its receive (flags must be Upgrade) | "call" = Connection.Call (flags 0) | "getinfo", "getdesc" = the introspection wrappers
 	Transport string          `json:"transport"`     // pipe | unix
 	Origin    string          `json:"origin,omitempty"`
+	// LongN > 0: the reply stream is LongN continues-frames of about LongKiB KiB each plus a final frame (built at run time):
+	// a long-lived connection - no single frame is large, the connection as a whole carries tens of MiB
+	LongN   int `json:"long_n,omitempty"`
+	LongKiB int `json:"long_kib,omitempty"`
+}
+
+func (c *C11Case) longReply() []byte {
+	var b bytes.Buffer
+	pad := strings.Repeat("0123456789abcdef", c.LongKiB*64)
+	for i := 0; i < c.LongN; i++ {
+		fmt.Fprintf(&b, `{"parameters":{"i":%d,"pad":"%s"},"continues":true}`, i, pad)
+		b.WriteByte(0)
+	}
+	b.WriteString(`{"parameters":{"last":true}}`)
+	b.WriteByte(0)
+	return b.Bytes()
 }
 
 type wireReply struct {
@@ -90,6 +107,10 @@ func execC11(c C11Case, bound time.Duration) (facts map[string]bool, err error) 
 	}
 	defer cliConn.Close()
 
+	if c.LongN > 0 {
+		c.Reply = c.longReply()
+		facts["long-lived-connection"] = true
+	}
 	sent := []byte(c.Reply)
 	if c.AbortAt >= 0 && c.AbortAt < len(sent) {
 		sent = sent[:c.AbortAt]
@@ -584,6 +605,16 @@ func TestC11Enum(t *testing.T) {
 				cuts = []int{1}
 			}
 			cases = append(cases, C11Case{Method: "x.y.M", Flags: varlink.More, Reply: Blob(s), AbortAt: off, Receives: len(fr) + 1, Transport: tr, Cuts: cuts, Origin: "C11Enum-abort"})
+		}
+	}
+	// long-lived connections: 24 MiB (thorough: up to 80 MiB) in frames of 64-512 KiB
+	longs := [][2]int{{96, 256}, {400, 64}}
+	if Thorough() {
+		longs = append(longs, [2]int{160, 512}, [2]int{1300, 64})
+	}
+	for _, l := range longs {
+		for _, tr := range []string{"unix", "pipe"} {
+			cases = append(cases, C11Case{Method: "x.y.Stream", Flags: varlink.More, AbortAt: -1, Receives: l[0] + 1, Transport: tr, Origin: "C11Enum-long", LongN: l[0], LongKiB: l[1]})
 		}
 	}
 	shard, nshards := Shard()
